@@ -150,7 +150,7 @@ def frame_contracts(run):
             c.params = params
             c.loops = loops or {}
             c.logs = []
-            c.requires = ["wf_interp(interpreter)"]
+            c.requires = []
             eng.contracts[key] = c
             out.append(key)
             return c
@@ -194,8 +194,10 @@ def opcode_contracts(run, extra_ensures=None, props=()):
         a = repo.attr(cls, "run")
         rinfo = a[0]
         wrapped = rinfo["name"] == "run_wrapper"
+        frame = ["interpreter.stack._stack[]", "interpreter.memory[]", "interpreter.module_body._list[]", "interpreter._var_counter",
+                 "interpreter._opcodes", "@list.items", "@ast.lineno", "@iterator.pos"]
         common = dict(params=f"self: {cls}, interpreter: fickle.Interpreter", may_raise=MAY_RAISE, exact_raises=False,
-                      props=["no-frame"] + list(props))
+                      props=["no-frame"] + list(props), modifies=frame)
         extra = (extra_ensures(name, cls, info) if extra_ensures else [])
         if wrapped:
             orig = rinfo["closure"]["orig_run"]
@@ -204,10 +206,10 @@ def opcode_contracts(run, extra_ensures=None, props=()):
             # the wrapped run sees the stack cut at the mark and the slice as a list
             oc = Contract(okey, params=f"self: {cls}, interpreter: fickle.Interpreter, stack_slice: list[val]",
                           requires=["wf_interp(interpreter)", f"{STK} == {sh['pre']}", "stack_slice == ghost_seq('seg')", "NM(ghost_seq('seg'))",
-                                    "fresh_list(stack_slice)"] +
+                                    "fresh_list(stack_slice, interpreter)"] +
                           [r for r in sh["requires"] if r.startswith("not is_mark(ghost_val('b")] + mreq,
                           ensures=sh["ensures"] + mens + extra, may_raise=MAY_RAISE, exact_raises=False, props=["no-frame"] + list(props),
-                          loops=scanning_loops(ofn, None), fn_override=(omod, ofn))
+                          loops=scanning_loops(ofn, None), fn_override=(omod, ofn), modifies=frame)
             eng.contracts[okey] = oc
             wmod, wfn = repo.fn_from_info(rinfo)
             wkey = f"{cls}.run"
